@@ -7,7 +7,9 @@ Every executed schedule is mapped to a schedule of the Lean model (Driver/C16.le
 model is compiled from the regenerated skeleton table E1, the file model from skeleton E2) and the
 model must predict the same final lists / file content and what every reader saw.
   (c) 2-3 threads logging through the default Logger to a destination that fails on every ordinary message
-      (no model: oracle only - as many eliot:destination_failure reports as failed deliveries, each message offered once).
+      (no model: oracle only - as many eliot:destination_failure reports as failed deliveries, each message offered once),
+  (d) 2-3 threads writing typed messages whose serializers fail on chosen calls through ONE shared Logger (oracle only:
+      one eliot:traceback and one eliot:serialization_failure per failed write, every successful write delivered once).
 Oracles (model-free): pairing message <-> own serializer, equal lengths, nothing duplicated or
 lost, traceback list = sequential specification in the *observed* lock-acquisition order, readers
 see paired lists; file: every line intact, multiset of lines = expected, per-thread order kept.
@@ -726,6 +728,7 @@ def run(ctx):
             ctx.obligation("correspondence:memlog-model", "correspondence", True, "%d executed schedules: model predicts the same final lists and reader observations" % agree)
     run_files(ctx, S, srng, broken)
     run_reports(ctx, srng)
+    run_serfail(ctx, srng)
 
 
 def run_files(ctx, S, srng, broken):
@@ -898,6 +901,105 @@ def run_reports(ctx, srng):
                 break
 
 
+# ---- real side: serialization failures from several threads through one Logger -------------------------
+
+def serfail_scheduler(timeout=30.0):
+    import ast
+
+    names = {"<lambda>"}
+    tree = ast.parse(open(OUTPUT).read())
+    for c in tree.body:
+        if isinstance(c, ast.ClassDef) and c.name in ("BufferingDestination", "Destinations", "Logger"):
+            names |= {f.name for f in c.body if isinstance(f, ast.FunctionDef)}
+    return sched.Scheduler([OUTPUT], [sched.LockLines(OUTPUT)], timeout=timeout, only_funcs=names - {"__init__"})
+
+
+class FailingSerializer(object):
+    def __init__(self, fails):
+        self.fails = fails
+
+    def serialize(self, d):
+        if self.fails:
+            raise ValueError("cannot serialize n=%s" % d.get("n"))
+        d["serialized"] = True
+
+
+def run_serfail_once(S, plan, chooser):
+    """plan[t] = list of booleans: thread t writes one typed message per entry through ONE shared Logger; True = its
+    serializer raises.  One healthy destination records everything."""
+    import eliot._output as O
+
+    D = O.Destinations()
+    saved = O.Logger._destinations
+    O.Logger._destinations = D
+    seen = []
+    D.add(lambda m: seen.append(dict(message_type=m.get("message_type"), n=m.get("n"), reason=str(m.get("reason")), about=str(m.get("message")),
+                                     serialized=m.get("serialized"))))
+    lg = O.Logger()
+    errors = []
+    try:
+        def worker(t, fl):
+            def body():
+                for j, f in enumerate(fl):
+                    try:
+                        lg.write({"message_type": "typed", "n": 10 * t + j}, FailingSerializer(f))
+                    except BaseException as e:  # noqa - observation
+                        errors.append(type(e).__name__)
+            return body
+
+        res = S.run([worker(t, fl) for t, fl in enumerate(plan)], chooser)
+    finally:
+        O.Logger._destinations = saved
+    return res, dict(seen=seen, errors=errors)
+
+
+def oracle_serfail(plan, res, obs):
+    if res.deadlock:
+        return ["threads deadlocked"]
+    bad = []
+    if obs["errors"]:
+        bad.append("Logger.write raised into the application: %s" % obs["errors"])
+    ok = sorted(10 * t + j for t, fl in enumerate(plan) for j, f in enumerate(fl) if not f)
+    failed = sorted(10 * t + j for t, fl in enumerate(plan) for j, f in enumerate(fl) if f)
+    delivered = sorted(m["n"] for m in obs["seen"] if m["message_type"] == "typed")
+    if delivered != ok:
+        bad.append("successfully serialized messages %s, delivered %s" % (ok, delivered))
+    tbs, sfs = [], []
+    for m in obs["seen"]:
+        if m["message_type"] == "eliot:traceback":
+            mm = re.search(r"n=(\d+)", m["reason"])
+            tbs.append(int(mm.group(1)) if mm else None)
+        elif m["message_type"] == "eliot:serialization_failure":
+            mm = re.search(r"'n'\W+(\d+)", m["about"])
+            sfs.append(int(mm.group(1)) if mm else None)
+    if sorted(x for x in tbs if x is not None) != failed or len(tbs) != len(failed):
+        bad.append("serializers failed on messages %s but the eliot:traceback messages delivered are about %s" % (failed, tbs))
+    if sorted(x for x in sfs if x is not None) != failed or len(sfs) != len(failed):
+        bad.append("serializers failed on messages %s but the eliot:serialization_failure messages delivered are about %s" % (failed, sfs))
+    return bad
+
+
+def run_serfail(ctx, srng):
+    S = serfail_scheduler()
+    total = Budget(ctx.budget(20, 200))
+    plans = [[[True], [True]], [[True, False], [True]], [[False, True], [True, True]]] + ([] if ctx.quick else [[[True], [True], [True]], [[True, True], [False, True], [True]]])
+    nviol = 0
+    for pi, plan in enumerate(plans):
+        if total.left() <= 0 or nviol:
+            break
+        budget = Budget(max(1.0, total.left() / (len(plans) - pi)))
+        for how, (res, obs) in schedules(ctx, lambda ch: run_serfail_once(S, plan, ch), srng, ctx.budget(2, 3), ctx.budget(200, 4000),
+                                         ctx.budget(15, 300), budget):
+            case = dict(kind="serfail", plan=plan, schedule=res.schedule)
+            ctx.case(case, nontrivial=res.preemptions >= 1, tags=["serfail:threads:%d" % len(plan), "serfail:sched:" + how,
+                                                                  "serfail:preemptions:%d" % min(res.preemptions, 4)])
+            bad = oracle_serfail(plan, res, obs)
+            if bad:
+                nviol += 1
+                ctx.violation(bad[0], dict(case, observed=obs, also=bad[1:3]), key=None)
+                break
+
+
 # ---- replay ------------------------------------------------------------------------------------------
 
 def replay(ctx, obj):
@@ -922,6 +1024,13 @@ def replay(ctx, obj):
         bad = oracle_file(fc, res, msgs, raw, errors)
         if bad:
             ctx.violation(bad[0], dict(case, content=raw.decode("utf-8", "replace")[:2000], also=bad[1:4]))
+    elif case.get("kind") == "serfail":
+        res, obs = run_serfail_once(serfail_scheduler(), case["plan"], sched.Explicit(case["schedule"]))
+        print("executed:", [(s.tid, s.line, s.func) for s in res.trace][:600])
+        print("destination saw:", obs["seen"])
+        bad = oracle_serfail(case["plan"], res, obs)
+        if bad:
+            ctx.violation(bad[0], dict(case, observed=obs, also=bad[1:3]))
     elif case.get("kind") == "reports":
         res, obs = run_reports_once(report_scheduler(), case["per"], sched.Explicit(case["schedule"]))
         print("executed:", [(s.tid, s.line, s.func) for s in res.trace][:600])
